@@ -10,3 +10,4 @@ import ExprModel.Props.C15
 import ExprModel.Props.C16
 import ExprModel.Props.C17
 import ExprModel.Props.C18
+import ExprModel.Props.C01
